@@ -205,13 +205,16 @@ def removeNots (named : Named) : Nat → IR → SM IR
       let empty ← tryEmpty named (.allOf vs)
       if empty then pure .never
       else do
-        let vs' ← removeNotsL named n vs
+        -- (negations are dropped before the members are rewritten: a negation rewritten on its own becomes `any`)
+        let vs' ← removeNotsL named n (vs.filter fun x => !isNot x)
         pure (IR.allOf' (vs'.filter fun x => !isNot x))
     | .anyOf vs => do
       let kept ← vs.filterMapM fun v => do
         if ← tryEmpty named v then pure none else pure (some v)
       let vs' ← removeNotsL named n kept
       pure (IR.anyOf' vs')
+    -- fix D102: a negation outside an intersection is what remains of `unknown & not X`: dropped, that is `unknown`
+    | .stNot _ => pure .any
     | other => pure other
 def removeNotsL (named : Named) : Nat → List IR → SM (List IR)
   | 0, _ => SM.fail
